@@ -63,8 +63,13 @@ fn universe_for(nkeys: usize, nprovs: usize, want: Option<&Value>, rng: &mut Std
                 }
             };
             let mut keys = vec![];
-            for i in 0..nkeys {
-                let name = format!("k{i}");
+            // key names come from the behaviour's rank table (it may use any subset of the model's keys)
+            let mut names: Vec<String> = w["ranks"].as_object().map(|o| o.keys().cloned().collect()).unwrap_or_default();
+            names.sort();
+            if names.is_empty() {
+                names = (0..nkeys).map(|i| format!("k{i}")).collect();
+            }
+            for (i, name) in names.into_iter().enumerate() {
                 let mut n = 0u32;
                 let k = loop {
                     let k = RecordKey::from([&[b'k', i as u8][..], &n.to_be_bytes()[..]].concat());
